@@ -5,83 +5,106 @@ namespace Pf
 
 /-! ### sizes -/
 
-theorem stemFill_size (usMain : Array Nat) (n : Nat) (stop : Array Int → Nat → Bool) (v : Int) :
-    ∀ (f idx : Nat) (br : Array Int), (stemFill usMain n stop v f idx br).size = br.size := by
+theorem stemFill_size (usMain : Array Nat) (n : Nat) (h : Nat → Int → Bool) (v : Int) :
+    ∀ (f idx : Nat) (br r : Array Int), stemFill usMain n h v f idx br = some r → r.size = br.size := by
   intro f
   induction f with
-  | zero => intro idx br; rfl
+  | zero => intro idx br r hr; simp [stemFill] at hr
   | succ f ih =>
-    intro idx br
-    simp only [stemFill]
-    split
-    · rfl
-    · rw [ih]; simp
+    intro idx br r hr
+    simp only [stemFill] at hr
+    split at hr
+    · simp only [Option.some.injEq] at hr; subst hr; rfl
+    · rw [ih _ _ _ hr]; simp
 
 theorem pfInner_size (ds usMain : Array Nat) (so : Array Int) (depth : Nat) (pfaf0 : Int) (d0 : Nat) :
-    ∀ (l : List Nat) (i : Nat) (st : PfSt × Int),
-      (pfInner ds usMain so depth pfaf0 d0 l i st).1.1.size = st.1.1.size := by
+    ∀ (l : List Nat) (i : Nat) (st r : PfSt × Int × Bool),
+      pfInner ds usMain so depth pfaf0 d0 l i st = some r → r.1.1.size = st.1.1.size := by
   intro l
   induction l with
-  | nil => intro i st; rfl
+  | nil => intro i st r hr; simp only [pfInner, Option.some.injEq] at hr; subst hr; rfl
   | cons idx rest ih =>
-    intro i st
-    obtain ⟨⟨br, idxs, labs⟩, intDs⟩ := st
-    simp only [pfInner]
-    split
-    · rw [ih]; simp [stemFill_size]
-    · rw [ih]; simp [stemFill_size]
+    intro i st r hr
+    obtain ⟨⟨br, idxs, labs⟩, intDs, ok⟩ := st
+    simp only [pfInner] at hr
+    split at hr
+    · cases hr
+    · rename_i br1 h1
+      have s1 := stemFill_size _ _ _ _ _ _ _ _ h1
+      split at hr
+      · rw [ih _ _ _ hr]; simpa using s1
+      · split at hr
+        · cases hr
+        · rename_i br2 h2
+          have s2 := stemFill_size _ _ _ _ _ _ _ _ h2
+          rw [ih _ _ _ hr]
+          simp only [Array.size_setIfInBounds] at s1 s2 ⊢
+          omega
 
 theorem pfPits_size (usMain : Array Nat) (n : Nat) (so : Array Int) (depth : Nat) :
-    ∀ (l : List Nat) (i : Nat) (st : PfSt), (pfPits usMain n so depth l i st).1.size = st.1.size := by
+    ∀ (l : List Nat) (i : Nat) (st r : PfSt), pfPits usMain n so depth l i st = some r →
+      r.1.size = st.1.size := by
   intro l
   induction l with
-  | nil => intro i st; rfl
+  | nil => intro i st r hr; simp only [pfPits, Option.some.injEq] at hr; subst hr; rfl
   | cons idx rest ih =>
-    intro i st
+    intro i st r hr
     obtain ⟨br, idxs, labs⟩ := st
-    simp only [pfPits]
-    rw [ih]; simp [stemFill_size]
+    simp only [pfPits] at hr
+    split at hr
+    · cases hr
+    · rename_i br1 h1
+      have s1 := stemFill_size _ _ _ _ _ _ _ _ h1
+      rw [ih _ _ _ hr]
+      simpa using s1
 
 theorem pfLoop_size (ds usMain : Array Nat) (so uparea : Array Int) (trib : List Nat) (depth : Nat) :
-    ∀ (f : Nat) (st : PfSt × Bool) (r : PfSt × Bool),
+    ∀ (f : Nat) (st r : PfSt × Bool × Bool),
       pfLoop ds usMain so uparea trib depth f st = some r → r.1.1.size = st.1.1.size := by
   intro f
   induction f with
   | zero =>
     intro st r h
-    obtain ⟨⟨br, idxs, labs⟩, tie⟩ := st
+    obtain ⟨⟨br, idxs, labs⟩, tie, ok⟩ := st
     cases labs with
     | nil => simp only [pfLoop, Option.some.injEq] at h; subst h; rfl
     | cons a labs => simp [pfLoop] at h
   | succ f ih =>
     intro st r h
-    obtain ⟨⟨br, idxs, labs⟩, tie⟩ := st
+    obtain ⟨⟨br, idxs, labs⟩, tie, ok⟩ := st
     cases labs with
     | nil => simp only [pfLoop, Option.some.injEq] at h; subst h; rfl
     | cons a labs =>
       obtain ⟨pfaf0, d0⟩ := a
       simp only [pfLoop] at h
       split at h
-      · exact ih ((br, idxs, labs), tie) r h
-      · have := ih _ _ h
-        rw [this, pfInner_size]
+      · exact ih ((br, idxs, labs), tie, ok) r h
+      · split at h
+        · cases h
+        · rename_i st' x ok' hin
+          have := ih _ _ h
+          rw [this]
+          exact pfInner_size _ _ _ _ _ _ _ _ _ _ hin
 
 theorem pfBranch_size (pits : List Nat) (ds : Array Nat) (seq : List Nat) (usMain : Array Nat)
     (uparea : Array Int) (mask : Option (Array Bool)) (depth : Nat)
-    (br : Array Int) (idxs : List Nat) (tie : Bool)
-    (h : pfBranch pits ds seq usMain uparea mask depth = some (br, idxs, tie)) :
+    (br : Array Int) (idxs : List Nat) (tie ok : Bool)
+    (h : pfBranch pits ds seq usMain uparea mask depth = some (br, idxs, tie, ok)) :
     br.size = ds.size := by
   unfold pfBranch at h
   simp only at h
   split at h
   · cases h
-  · rename_i br' idxs' labs' tie' heq
-    simp only [Option.some.injEq, Prod.mk.injEq] at h
-    obtain ⟨h1, _, _⟩ := h
-    subst h1
-    have := pfLoop_size _ _ _ _ _ _ _ _ _ heq
-    simp only at this
-    rw [this, pfPits_size]; simp
+  · rename_i st0 hp
+    split at h
+    · cases h
+    · rename_i br' idxs' labs' tie' ok' heq
+      simp only [Option.some.injEq, Prod.mk.injEq] at h
+      obtain ⟨h1, _, _⟩ := h
+      subst h1
+      have := pfLoop_size _ _ _ _ _ _ _ _ _ heq
+      simp only at this
+      rw [this, pfPits_size _ _ _ _ _ _ _ _ hp]; simp
 
 /-! ### digits -/
 
